@@ -6,12 +6,17 @@
 //	S  every byte string of length 0..3 (16 843 009 strings) into every reader
 //	   (quick: length 3 only into the generic and typed readers; the explicit-tag
 //	   optional readers see every string of length 0..2 and the grids),
+//	   thorough adds every 2-byte tail under 16 identifier octets x 9 length octets
+//	   and every 3-byte content of INTEGER/ENUMERATED/OID/BIT STRING/BOOLEAN,
 //	G1 the TLV grid: every identifier octet 0..255 x 10 length-octet forms (short,
 //	   0x81..0x85 wide, 0x88 wide, indefinite 0x80, reserved 0xff) x 3 tails (exact,
 //	   one trailing byte, last content byte missing) x the content classes of every
 //	   type (INTEGER at every Go-type boundary +-1 minimal and padded, BOOLEAN,
 //	   OID arcs, BIT STRING padding counts/bits, OCTET STRINGs at every length-form
-//	   boundary, time strings), each into every reader,
+//	   boundary, time strings), each into every reader (quick: the 256-octet cross
+//	   uses the INTEGER contents at the Go-type boundaries +-1; the complete INTEGER
+//	   alphabet is crossed with the 16 identifier octets some reader looks for),
+//	   plus length octets at the 32-bit limits,
 //	G2 the time grammars (UTCTime 6x12x6x4x13 and GeneralizedTime 9x12x6x5x13 field
 //	   combinations) under both time tags,
 //	G3 explicit-tag wrappers around the inner elements for the Optional readers,
@@ -221,6 +226,8 @@ func eqVal(a, b any) bool {
 	}
 	return reflect.DeepEqual(a, b)
 }
+
+var seedByte byte // varies the OCTET STRING contents with VERIF_SEED
 
 var defBig = big.NewInt(7777)
 var sentinel = []byte{1, 2, 3}
@@ -1059,6 +1066,35 @@ func (k *checker) sweep(maxLen int, groups [3]bool, label string) {
 	c.Set("sweep_"+label, map[string]any{"max_len": maxLen, "groups_generic_typed_optional": groups})
 }
 
+// sweep4 (thorough): every 2-byte tail under 16 identifier octets x 9 length octets into
+// every reader, and every 3-byte content of INTEGER/ENUMERATED/OID/BIT STRING/BOOLEAN
+// into the typed readers.
+func (k *checker) sweep4() {
+	c := k.c
+	tags := []byte{0x01, 0x02, 0x03, 0x04, 0x05, 0x06, 0x0a, 0x17, 0x18, 0x1f, 0x22, 0x30, 0x42, 0x82, 0xa0, 0xa2}
+	lens := []byte{0x00, 0x01, 0x02, 0x03, 0x7f, 0x80, 0x81, 0x82, 0xff}
+	all := [3]bool{true, true, true}
+	c.ParallelFor(len(tags)*len(lens)*256, func(i int) {
+		st := k.newStats()
+		defer k.merge(st)
+		t, l, hi := tags[i/(len(lens)*256)], lens[(i/256)%len(lens)], byte(i)
+		for lo := 0; lo < 256; lo++ {
+			k.checkInput([]byte{t, l, hi, byte(lo)}, all, st)
+		}
+	})
+	typed := [3]bool{false, true, false}
+	tags3 := []byte{0x02, 0x0a, 0x06, 0x03, 0x01}
+	c.ParallelFor(len(tags3)*65536, func(i int) {
+		st := k.newStats()
+		defer k.merge(st)
+		t := tags3[i>>16]
+		for lo := 0; lo < 256; lo++ {
+			k.checkInput([]byte{t, 0x03, byte(i >> 8), byte(i), byte(lo)}, typed, st)
+		}
+	})
+	c.Set("sweep_structured_len4_5", map[string]any{"two_byte_tails": len(tags) * len(lens) * 65536, "three_byte_contents": len(tags3) << 24})
+}
+
 // ---------------------------------------------------------------------------
 // content classes
 // ---------------------------------------------------------------------------
@@ -1155,7 +1191,7 @@ func octetContents() [][]byte {
 	for _, n := range []int{0, 1, 2, 126, 127, 128, 129, 255, 256, 257, 65535, 65536} {
 		b := make([]byte, n)
 		for i := range b {
-			b[i] = byte(i*13 + 1)
+			b[i] = byte(i*13+1) + seedByte
 		}
 		out = append(out, b)
 	}
@@ -1607,6 +1643,7 @@ func run(c *vf.Ctx) {
 	c.Assume("cryptobyte's documented deviations are not alarmed on: high-tag-number identifiers rejected, UTCTime with minute precision and time differentials (+-hhmm) tolerated, GeneralizedTime with a seconds fraction unsupported; arcs above 2^31-1 not representable")
 	c.Assume("time differentials with hour 24 (accepted via time.Parse) are classified as don't-care")
 
+	seedByte = byte(c.Seed)
 	k := &checker{c: c, rs: readers(), lenient: map[string]int64{}}
 	k.accepts = make([]int64, len(k.rs))
 	k.rejects = make([]int64, len(k.rs))
@@ -1615,7 +1652,7 @@ func run(c *vf.Ctx) {
 		for i, r := range k.rs {
 			per[r.name] = map[string]int64{"accepted": k.accepts[i], "rejected": k.rejects[i]}
 			c.Outcome(r.name + "|accepts")
-			if k.accepts[i] == 0 {
+			if k.accepts[i] == 0 && c.Replay == nil {
 				c.Violation("harness: reader "+r.name+" never accepted anything (vacuous)", nil)
 			}
 		}
@@ -1636,9 +1673,6 @@ func run(c *vf.Ctx) {
 		st := k.newStats()
 		k.checkInput(b, [3]bool{true, true, true}, st)
 		k.merge(st)
-		for i := range k.accepts {
-			k.accepts[i]++ // no vacuity alarm in replay
-		}
 		return
 	}
 
@@ -1683,6 +1717,10 @@ func run(c *vf.Ctx) {
 	phase("G1_tlv_grid")
 	if c.Thorough || os.Getenv("C23_FULL_SWEEP") != "" {
 		k.sweep(3, [3]bool{true, true, true}, "all_readers")
+		phase("S_sweep")
+		k.sweep4()
+		phase("S_structured_len4_5")
+		return
 	} else {
 		k.sweep(3, [3]bool{true, true, false}, "len3_generic_and_typed")
 	}
